@@ -44,10 +44,22 @@ def _shift(node, lbase, bbase):
     return node
 
 
-def callee_of(t):
+def mir_key(F, p):
+    """key of F.mir for a (normalised) callee path: impl blocks with generics keep them in the key ('Ctx::<'a>::f')"""
+    if p in F.mir:
+        return p
+    if not hasattr(F, '_norm_mir'):
+        F._norm_mir = {}
+        for k in F.mir:
+            F._norm_mir.setdefault(norm_path(k), k)
+    return F._norm_mir.get(p, p)
+
+
+def callee_of(t, F=None):
     k = (t.get('func') or {}).get('k') or {}
     if k.get('rlocal') and k.get('resolved') and k.get('rkind') == 'item':
-        return norm_path(k['resolved'])
+        p = norm_path(k['resolved'])
+        return mir_key(F, p) if F is not None else p
     return None
 
 
@@ -77,7 +89,7 @@ def inline_local(F, root, expand=None, keep=(), max_depth=4, max_blocks=6000):
         t = b['term']
         if t.get('t') != 'Call':
             continue
-        callee = callee_of(t)
+        callee = callee_of(t, F)
         if callee is None or depth >= max_depth or callee in chain or not expand(callee):
             continue
         cb = F.mir[callee]
